@@ -3,11 +3,11 @@ from hypothesis import strategies as st
 
 from trie import HexaryTrie
 
-from ..faults import FAULTS, FaultDB
+from ..faults import FAULTS, FaultDB, WriteThroughDB
 from ..hexcommon import histories, mirror_fragments, simple_ops, twin_fragments
 from ..hexrun import apply_simple, check_prune, norm_counts, play, run_history
 from ..ref.mpt import RefTrie
-from ..util import Abort, Info, cm_enter, cm_exit, expect, expect_eq, impl
+from ..util import Abort, Info, abort_exception, cm_enter, cm_exit, expect, expect_eq, impl
 
 ID = "C05"
 LEVEL = "fault_enumeration"
@@ -61,7 +61,8 @@ def strategy(tier):
                                   lambda fr: [o for f in fr for o in (f if isinstance(f, list) else [f])][:24]),
             "rest": histories(tier, max_ops=12 if big else 6, batches=True, aborts=True,
                               near_weight=4, looks=1),
-            "exc": st.integers(0, 2),
+            "exc": st.integers(0, 4),
+            "db_kind": st.sampled_from([0, 0, 0, 1]),
             "in_handler": st.booleans(),
             "sparse": st.booleans(),
         }
@@ -74,7 +75,10 @@ class _BaseAbort(BaseException):
 
 def _run_exit_inner(case, exit_kind, exit_arg, info):
     prune = bool(case["prune"])
-    db = FaultDB()
+    # mostly the fault-injecting dict; sometimes a write-through dict subclass whose item
+    # methods are the only way to the real store (no commit faults are injected there)
+    wt = bool(case.get("db_kind")) and exit_kind != "fail"
+    db = WriteThroughDB() if wt else FaultDB()
     trie = impl("construct", HexaryTrie, db, prune=prune)
     model = {}
     play(trie, model, case["prior"])
@@ -101,9 +105,7 @@ def _run_exit_inner(case, exit_kind, exit_arg, info):
 
     measured_w = None
     if aborted:
-        kind = case.get("exc", 0)
-        exc = [Abort("injected"), _BaseAbort("injected"), KeyboardInterrupt("injected")][kind]
-        cm_exit("squash_changes-exit", cm, exc)
+        cm_exit("squash_changes-exit", cm, abort_exception(case.get("exc", 0)))
         outcome = "aborted"
     elif exit_kind == "fail":
         db.arm(exit_arg, case.get("exc", 0))  # the write fails with one of three exception types
@@ -115,9 +117,10 @@ def _run_exit_inner(case, exit_kind, exit_arg, info):
                    f"commit write #{exit_arg} was made to fail but the block completed")
         outcome = "commit-failed"
     else:
-        db.writes = 0
+        if not wt:
+            db.writes = 0
         cm_exit("squash_changes-exit", cm)
-        measured_w = db.writes
+        measured_w = 0 if wt else db.writes
         outcome = "committed"
 
     if outcome == "committed":
@@ -132,7 +135,7 @@ def _run_exit_inner(case, exit_kind, exit_arg, info):
                    lambda: f"node {h.hex()} needed for the new root is missing or wrong in the db")
         if not prune:
             for h, body in pre_db.items():
-                expect("commit-removes-nothing", h in db and dict.__getitem__(db, h) == body,
+                expect("commit-removes-nothing", h in db and db[h] == body,
                        lambda: f"entry {h.hex()} that existed before the block was removed/changed")
             leaked = [h for h in db if h not in pre_db and h not in bodies]
             expect("commit-adds-no-intermediate-node", not leaked,
@@ -143,7 +146,7 @@ def _run_exit_inner(case, exit_kind, exit_arg, info):
     else:
         expect_eq(outcome + "-keeps-root", bytes(trie.root_hash), pre_root, "outer root")
         for h, body in pre_db.items():
-            expect(outcome + "-keeps-contents", h in db and dict.__getitem__(db, h) == body,
+            expect(outcome + "-keeps-contents", h in db and db[h] == body,
                    lambda: f"entry {h.hex()} stored before the block is gone or changed")
         if prune:
             expect_eq(outcome + "-keeps-ref-counts", norm_counts(trie), pre_counts,
